@@ -25,6 +25,8 @@ def run(ctx):
     stream.partial_buffer_verdicts(ctx, P)
     stream.zero_means_end(ctx, P)
     stream.eof_kind_protocol(ctx, P)
+    stream.eof_helper_not_leaked(ctx, P)
+    stream.output_buffer_index_guarded(ctx, P)
     stream.no_multi_octet_match_on_transient_slice(ctx, P)
     from rules import c14
     c14.hasher_rules(ctx, P)
